@@ -201,6 +201,10 @@ func (ns *Namespace) UnmarshalYAML(value *yaml.Node) error {
 		if err := nameNode.DecodeWithOptions(&meta, yaml.DecodeOptions{KnownFields: true}); err != nil {
 			return err
 		}
+		if meta == nil {
+			// a null key ("~: ..."): the decoder sets the pointer to nil without calling DefinitionMeta.UnmarshalYAML
+			return parseError(nameNode, "the name of a type is required to be a string")
+		}
 
 		typeDef, err := UnmarshalTypeDefinition(typeNode, meta)
 		if err != nil {
